@@ -5,6 +5,7 @@ import (
 	"errors"
 	"fmt"
 	gonet "net"
+	"strings"
 	"sync"
 	"time"
 
@@ -186,6 +187,10 @@ func (w *World) fateOf(from, to, method, dir string, body []byte) fate {
 	w.mu.Lock()
 	defer w.mu.Unlock()
 	var f fate
+	if strings.HasPrefix(from, "zombie-") {
+		f.drop = true
+		return f
+	}
 	if w.cut[[2]string{from, to}] {
 		f.drop = true
 		w.Rec.Count("fault:partition_drop", 1)
